@@ -350,7 +350,24 @@ def check_exh(ctx, item):
     check_case(ctx, case)
 
 
-SUBCHECKS = {"random": check_case, "exhaustive": check_exh, "history": check_history, "labels": check_labels}
+def check_large(ctx, item):
+    from checks.c01_bipartitions import large_spec
+    n = item["n"]
+    spec = large_spec(item["kind"], n, n * 3 + 2)
+    for k, sp in enumerate(shapes.spec_nodes(spec)):
+        if k:
+            sp["len"] = float(1 + (k % 4)) / 4.0
+    ksel = 0
+    for i in range(n):
+        if (i * 2654435761) % 7 < (3 if item["keep"] == "half" else 6 if item["keep"] == "most" else 1):
+            ksel |= 1 << i
+    case = {"spec": spec, "lenpat": "dyadic", "kclass": "random", "ksel": ksel, "variant": item["variant"], "su": item["su"],
+            "ub": item["ub"], "rooted": item["rooted"]}
+    check_case(ctx, case)
+    ctx.cls("large:%s" % item["kind"])
+
+
+SUBCHECKS = {"random": check_case, "exhaustive": check_exh, "history": check_history, "labels": check_labels, "large": check_large}
 
 
 def run(ctx):
@@ -359,4 +376,11 @@ def run(ctx):
     runner.run_given(ctx, "random", cases(9 if quick else 25), check_case, total // ctx.nshards)
     runner.run_items(ctx, "exhaustive", exhaustive_items(5 if quick else 6), check_exh)
     runner.run_given(ctx, "history", history_cases(9 if quick else 20), check_history, (2000 if quick else 30000) // ctx.nshards)
+    sizes = [65, 129, 1030] if quick else [63, 64, 65, 129, 257, 1023, 1025, 1030, 2050]
+    large = [{"kind": k, "n": n, "variant": v, "su": su, "ub": ub, "rooted": r, "keep": keep}
+             for n in sizes for k in ("balanced", "random", "caterpillar", "star") if not (k == "caterpillar" and n > 600)
+             for v, su, ub, r, keep in (("prune_taxa", True, False, True, "half"), ("retain_taxa_with_labels", True, True, False, "few"),
+                                        ("extract_tree_with_taxa", False, False, True, "most"), ("filter_leaf_nodes", True, False, None, "half"),
+                                        ("extract_tree_without_taxa_labels", True, False, False, "half"))]
+    runner.run_items(ctx, "large", large, check_large)
     runner.run_given(ctx, "labels", label_cases(8 if quick else 16), check_labels, (1600 if quick else 20000) // ctx.nshards)
